@@ -11,6 +11,7 @@ import (
 	"go/ast"
 	"go/parser"
 	"go/token"
+	"go/types"
 	"os"
 	"os/exec"
 	"path/filepath"
@@ -49,6 +50,15 @@ type Harness struct {
 	Functions  []string                    `json:"functions"` // real functions this harness is meant to execute (checked)
 	OnlyTier   string                      `json:"only_tier"`
 	Replay     string                      `json:"replay"` // "native" (default) | "none" (counterexamples cannot be replayed natively: stubs)
+	Iface      *IfaceExpect                `json:"interface_methods"`
+}
+
+// IfaceExpect states the method set of an interface the harness enumerates by hand; a
+// difference (e.g. a newly added GraphQL mutation) makes the check inconclusive.
+type IfaceExpect struct {
+	Pkg     string   `json:"pkg"`
+	Type    string   `json:"type"`
+	Methods []string `json:"methods"`
 }
 
 type Check struct {
@@ -163,6 +173,11 @@ func main() {
 	var results []*harnessResult
 	for _, h := range hs {
 		r := runHarness(prog, pkgs, h, seed)
+		if h.Iface != nil {
+			if msg := checkIface(prog, h.Iface); msg != "" {
+				r.inconclusive = append(r.inconclusive, msg)
+			}
+		}
 		results = append(results, r)
 	}
 
@@ -1083,4 +1098,38 @@ func writeEvidence(chk *Check, results []*harnessResult, seed int, wall float64,
 	data, _ := json.MarshalIndent(ev, "", " ")
 	os.MkdirAll(filepath.Join(*flagVerif, "evidence"), 0755)
 	os.WriteFile(filepath.Join(*flagVerif, "evidence", chk.Property+".json"), data, 0644)
+}
+
+func checkIface(prog *ssa.Program, e *IfaceExpect) string {
+	p := prog.ImportedPackage(e.Pkg)
+	if p == nil {
+		return "interface check: package not loaded: " + e.Pkg
+	}
+	obj := p.Pkg.Scope().Lookup(e.Type)
+	if obj == nil {
+		return "interface check: type not found: " + e.Type
+	}
+	it, ok := obj.Type().Underlying().(*types.Interface)
+	if !ok {
+		return "interface check: not an interface: " + e.Type
+	}
+	have := map[string]bool{}
+	for i := 0; i < it.NumMethods(); i++ {
+		have[it.Method(i).Name()] = true
+	}
+	var diff []string
+	for _, m := range e.Methods {
+		if !have[m] {
+			diff = append(diff, "-"+m)
+		}
+		delete(have, m)
+	}
+	for m := range have {
+		diff = append(diff, "+"+m)
+	}
+	if len(diff) > 0 {
+		sort.Strings(diff)
+		return fmt.Sprintf("the method set of %s.%s differs from what the harness enumerates (%s): extend the harness", e.Pkg, e.Type, strings.Join(diff, " "))
+	}
+	return ""
 }
